@@ -13,8 +13,12 @@
        is signature-checked and WHICH element the reported fields are read from;
      * attribute_converter.list_to_local / ava_from (value extraction and merging; the name map
        itself is data, see C17);
+     * sigver._is_the_only_signature_child (element looked up in the received text by name and ID, must be the
+       only one; exactly one ds:Signature child, ahead of every other ds:Signature below the element);
      * the xmlsec1 stand-in harness/standin/xmlsec1.py (= xmlsec1 1.2.x apps/xmlsec.c:
-       xmlSecAppAddIDAttr, xmlSecFindNode, xmldsig.c node-order strictness) for --verify.
+       xmlSecAppAddIDAttr, xmlSecFindNode, xmldsig.c node-order strictness) for --verify, generalised to an
+       [engine] record: duplicate-ID handling {error = xmlsec1, first wins, last wins} x signature selection
+       {first ds:Signature at or below the node = xmlsec1, the ds:Signature child}.
    Documents are finite unranked trees (unbounded depth and width).  Text-level XML
    (prefixes, entities, whitespace, comments) is NOT modelled: implementation side only.
    Cryptography is ideal and external: the predicates [dig_ok] / [sig_ok] are parameters.
@@ -198,7 +202,9 @@ Record oracle := {
    the behaviour before the two repairs (knobs_v0) for the refutation theorems. *)
 Record knobs := {
   k_uri : bool;        (* validator "the anchor points to the enclosing element ID attribute" *)
-  k_dup : bool;        (* xmlsec1: duplicate ID attribute is an error (otherwise last wins) *)
+  k_uniq : bool;       (* _is_the_only_signature_child inspects THE element of that name whose ID equals item.id and
+                          refuses unless there is exactly one in the document as received (len(nodes) != 1);
+                          false = the LAST such element is inspected, however many there are (dict keyed by ID) *)
   k_nodeid : bool;     (* --node-id item.id is passed (otherwise verification starts at the root) *)
   k_onesig : bool;     (* e81db11e (C02-F1): _is_the_only_signature_child — the element as received has exactly
                           one ds:Signature child and it is the first ds:Signature at/below the element *)
@@ -206,13 +212,33 @@ Record knobs := {
                           assertion's issuer *)
   k_iter : bool;       (* the one-signature test looks for the first ds:Signature among ALL descendants in
                           document order (Element.iter); false = among the direct children only (find) *)
-  k_exact : bool       (* the Reference URI is compared with "#"+ID byte for byte; false = ignoring letter case *)
+  k_exact : bool;      (* the Reference URI is compared with "#"+ID byte for byte; false = ignoring letter case *)
+  k_lax : bool         (* 32211c52 (C02-F3): the uniqueness test of _is_the_only_signature_child sees every element that the
+                          engine's --id-attr registration matches (also the un-namespaced ones of that local name);
+                          false = before: the namespace-qualified elements of the node name only *)
 }.
 Definition as_coded : knobs :=
-  {| k_uri := true; k_dup := true; k_nodeid := true; k_onesig := true; k_issuer := true; k_iter := true; k_exact := true |}.
+  {| k_uri := true; k_uniq := true; k_nodeid := true; k_onesig := true; k_issuer := true; k_iter := true; k_exact := true; k_lax := true |}.
+(* before 32211c52 *)
+Definition knobs_v1 : knobs :=
+  {| k_uri := true; k_uniq := true; k_nodeid := true; k_onesig := true; k_issuer := true; k_iter := true; k_exact := true; k_lax := false |}.
 (* before e81db11e and 64feb908 *)
 Definition knobs_v0 : knobs :=
-  {| k_uri := true; k_dup := true; k_nodeid := true; k_onesig := false; k_issuer := false; k_iter := true; k_exact := true |}.
+  {| k_uri := true; k_uniq := true; k_nodeid := true; k_onesig := false; k_issuer := false; k_iter := true; k_exact := true; k_lax := false |}.
+
+(* ------------------------------------------------------------------ the signature engine *)
+(* pysaml2 hands the document to an external signature engine.  The engine it is written for is xmlsec1
+   (apps/xmlsec.c: xmlSecAppAddIDAttr makes a duplicate ID value under --id-attr a hard error; xmlSecFindNode
+   takes the first ds:Signature in document order at or below the start node).  The guard
+   sigver._is_the_only_signature_child is defence in depth for engines that resolve a duplicated ID silently
+   (libxml2 xmlGetID: first registration wins; hash-map registries: last wins) or that take the ds:Signature
+   CHILD of the start node.  The engine is therefore a parameter of the model, and the property is proved for
+   every engine. *)
+Inductive idmode := IdStrict | IdFirst | IdLast.
+Inductive sigsel := SelBelow | SelChild.
+Record engine := { e_ids : idmode; e_sel : sigsel }.
+Definition xmlsec1 : engine := {| e_ids := IdStrict; e_sel := SelBelow |}.
+Definition lenient (E : engine) : bool := match e_ids E with IdStrict => false | _ => true end.
 
 (* ------------------------------------------------------------------ xmlsec1 --verify (stand-in) *)
 Record nodename := { nn_q : string; nn_l : string }.   (* "saml:Assertion" / un-namespaced "Assertion" *)
@@ -271,6 +297,30 @@ Fixpoint first_sig (t : tree) : option path :=
                           | None => go (S i) r
                           end
               end) 0 ks
+  end.
+
+(* index of the first ds:Signature among the direct children (engines that take the Signature child) *)
+Fixpoint sig_index (i : nat) (l : list tree) : option nat :=
+  match l with
+  | [] => None
+  | k :: r => if String.eqb (tag k) SIGNATURE then Some i else sig_index (S i) r
+  end.
+Definition first_sig_child (t : tree) : option path :=
+  match sig_index 0 (kids t) with Some j => Some [j] | None => None end.
+
+Definition sel_sig (s : sigsel) (start : tree) : option path :=
+  match s with SelBelow => first_sig start | SelChild => first_sig_child start end.
+
+(* every element a parser of the received text sees (nothing below a ciphertext node), document order *)
+Fixpoint visible (t : tree) : list (path * tree) :=
+  match t with
+  | Node tg ats _ ks =>
+      ([], t) :: (if opaque_parts tg ats then []
+                  else (fix go (i : nat) (l : list tree) : list (path * tree) :=
+                          match l with
+                          | [] => []
+                          | k :: r => map (fun pe => (i :: fst pe, snd pe)) (visible k) ++ go (S i) r
+                          end) 0 ks)
   end.
 
 Definition all_tag (tg : string) (l : list tree) : bool :=
@@ -373,11 +423,17 @@ Section Crypto.
         end
     end.
 
-  Definition xmlsec_verify (K : knobs) (doc : tree) (nn : nodename) (node_id : option string) (cert : nat) : vres :=
+  (* ID lookup of the engine: strict and first-wins read the first registration, last-wins the last *)
+  Definition ids_of (m : idmode) (reg : list (string * path)) (i : string) : option path :=
+    match m with IdLast => assoc_last i reg | _ => assoc i reg end.
+  Definition dup_error (m : idmode) (reg : list (string * path)) : bool :=
+    match m with IdStrict => has_dup (map fst reg) | _ => false end.
+
+  Definition xmlsec_verify (E : engine) (K : knobs) (doc : tree) (nn : nodename) (node_id : option string) (cert : nat) : vres :=
     let reg := collect nn doc in
-    if k_dup K && has_dup (map fst reg) then VErr
+    if dup_error (e_ids E) reg then VErr
     else
-      let ids := fun i => if k_dup K then assoc i reg else assoc_last i reg in
+      let ids := ids_of (e_ids E) reg in
       match (match (if k_nodeid K then node_id else None) with
              | None => Some []
              | Some i => ids i
@@ -387,7 +443,7 @@ Section Crypto.
           match sub doc sp with
           | None => VErr
           | Some start =>
-              match first_sig start with
+              match sel_sig (e_sel E) start with
               | None => VErr
               | Some rel =>
                   match sub start rel with
@@ -453,7 +509,8 @@ Section Crypto.
         end
     end.
 
-  (* sigver._is_the_only_signature_child (e81db11e) *)
+  (* sigver._is_the_only_signature_child (e81db11e), the part that looks at one element: exactly one
+     ds:Signature child, and it is the first ds:Signature in document order at or below the element *)
   Definition one_sig (item : tree) : bool :=
     match many SIGNATURE item, first_sig item with
     | [_], Some [i] => match nth_error (kids item) i with
@@ -466,6 +523,22 @@ Section Crypto.
   Definition one_sig_k (K : knobs) (item : tree) : bool :=
     if k_iter K then one_sig item
     else match many SIGNATURE item with [_] => true | _ => false end.
+
+  (* [e for e in root.iter("{ns}tag") if e.get("ID") == node_id]: the namespace-qualified elements of the node
+     name whose ID attribute equals item.id (None = no ID attribute), in the text as received *)
+  Definition node_match (K : knobs) (nn : nodename) (tg : string) : bool :=
+    if k_lax K then id_match nn tg else String.eqb tg (nn_q nn).
+  Definition nodes_of (m : string -> bool) (oid : option string) (doc : tree) : list path :=
+    map fst (filter (fun pe => m (tag (snd pe)) && opt_eqb String.eqb (attr "ID" (snd pe)) oid) (visible doc)).
+
+  (* sigver._is_the_only_signature_child as called by _check_signature: the element is looked up in the
+     RECEIVED TEXT by name and ID - it must be the only one - and the one-signature test is made on it *)
+  Definition one_sig_doc (K : knobs) (nn : nodename) (doc item : tree) : bool :=
+    let ps := nodes_of (node_match K nn) (attr "ID" item) doc in
+    match (if k_uniq K then match ps with [q] => Some q | _ => None end else last_opt ps) with
+    | Some q => match sub doc q with Some node => one_sig_k K node | None => false end
+    | None => false
+    end.
 
   Definition issuer_text (item : tree) : string :=
     match single ISSUER item with Some i => strip (text i) | None => "" end.
@@ -481,19 +554,19 @@ Section Crypto.
 
   (* item is an element of doc that carries a ds:Signature child.  Result: what xmlsec1
      digested (target, signature) and the certificate that verified, or None = rejected. *)
-  Definition check_signature (K : knobs) (c : cfg) (doc item : tree) (nn : nodename)
+  Definition check_signature (E : engine) (K : knobs) (c : cfg) (doc item : tree) (nn : nodename)
              (fallback_issuer : string) (schema_ok : bool) : option (list (path * path) * nat) :=
     let iss := let i := issuer_text item in if is_empty i then fallback_issuer else i in
     let certs := md_certs c iss in
     if negb schema_ok then None
     else if negb (validators K item) then None
-    else if k_onesig K && negb (one_sig_k K item) then None
+    else if k_onesig K && negb (one_sig_doc K nn doc item) then None
     else
       let nid := match attr "ID" item with
                  | Some i => if is_empty i then None else Some i      (* if node_id: *)
                  | None => None
                  end in
-      first_ok (xmlsec_verify K doc nn nid) certs.
+      first_ok (xmlsec_verify E K doc nn nid) certs.
 
   (* ---------------------------------------------------------------- what is reported *)
   Record reported := {
@@ -629,7 +702,7 @@ Section Crypto.
 
   (* _assertion() signature part over a list of assertions of document doc (root = the Response as
      received).  Result: None = rejected; Some (all carried a signature, digests) *)
-  Fixpoint check_assertions (K : knobs) (c : cfg) (d : bool) (root doc : tree) (fallback : string)
+  Fixpoint check_assertions (E : engine) (K : knobs) (c : cfg) (d : bool) (root doc : tree) (fallback : string)
            (as_ : list tree) (sch : list bool) : option (bool * list dig) :=
     match as_ with
     | [] => Some (true, [])
@@ -639,15 +712,15 @@ Section Crypto.
         match single SIGNATURE a with
         | None =>
             if want_assert c then None
-            else match check_assertions K c d root doc fallback r (tl sch) with
+            else match check_assertions E K c d root doc fallback r (tl sch) with
                  | Some (_, ds) => Some (false, ds)
                  | None => None
                  end
         | Some _ =>
-            match check_signature K c doc a A_NAME fallback s with
+            match check_signature E K c doc a A_NAME fallback s with
             | None => None
             | Some res =>
-                match check_assertions K c d root doc fallback r (tl sch) with
+                match check_assertions E K c d root doc fallback r (tl sch) with
                 | Some (all, ds) => Some (all, mkdigs d res ++ ds)
                 | None => None
                 end
@@ -673,13 +746,13 @@ Section Crypto.
   (* The acceptance path.  doc = the Response as received; ddoc = the text against which the
      signatures of decrypted assertions are verified (str(response) after decrypt_keys), only
      consulted when find_encrypt_data holds.  Result: None = no identity. *)
-  Definition accept (K : knobs) (c : cfg) (o : oracle) (doc : tree) (ddoc : option tree)
+  Definition accept (E : engine) (K : knobs) (c : cfg) (o : oracle) (doc : tree) (ddoc : option tree)
     : option (reported * list dig) :=
     if negb (String.eqb (tag doc) RESPONSE) then None
     else if negb (content_ok o) then None
     else
       match (match single SIGNATURE doc with
-             | Some _ => match check_signature K c doc doc R_NAME "" (schema_root o) with
+             | Some _ => match check_signature E K c doc doc R_NAME "" (schema_root o) with
                          | Some res => Some (true, mkdigs false res)
                          | None => None
                          end
@@ -688,7 +761,7 @@ Section Crypto.
       | None => None
       | Some (resp_signed, d0) =>
           let plain := many ASSERTION doc in
-          match check_assertions K c false doc doc "" plain (schema_as o) with
+          match check_assertions E K c false doc doc "" plain (schema_as o) with
           | None => None
           | Some (all1, d1) =>
               if find_encrypt_data doc then
@@ -698,7 +771,7 @@ Section Crypto.
                     let encs := decrypted dd in
                     (* decrypt_assertions: signature checked when present; _assertion(a, True):
                        unsigned + require_signature => SignatureError *)
-                    match check_assertions K c true doc dd "" encs (schema_enc o) with
+                    match check_assertions E K c true doc dd "" encs (schema_enc o) with
                     | None => None
                     | Some (all2, d2) =>
                         let plain' := many ASSERTION dd in
